@@ -8,6 +8,11 @@
     (c) `read_data_block` (decode a <Data> payload)                           gifti/parse_gifti_fast.py:37-135
         and its writer-side counterpart `_data_tag_element`                   gifti/gifti.py:380-400
 
+    Scope of (b): documents with ONE <GIFTI> element (a nested second <GIFTI> would leave `self.da`/`self.coordsys`
+    pointing into the abandoned image; not modelled).  Every Python exception is one outcome `Err.other` (only
+    IndexError of list.pop is kept apart); warnings (NumberOfDataArrays mismatch) are not modelled.  float()/int()
+    of attribute text is modelled on canonical spellings only (`pyInt`; Label colours are kept as text).
+
     External (NOT modelled, enter as parameters `Ext` with a written contract): base64, zlib, conversion of one
     ASCII number token to a value of the array dtype (np.loadtxt), expat itself (the model starts at the handler
     calls expat makes).  Code tables (`Recoder`s) enter as the parameter `Codes`, instantiated by the REGENERATED
